@@ -100,6 +100,8 @@ fn c01(tier: Tier) -> Vec<SeqCfg> {
         delete(K2, CasArg::Zero),
         add(K1, b"n", 7, 0),
         replace(K1, b"r", 9, 0),
+        store(StoreKind::Set, K1, b"", 3, 0, CasArg::CurrentPlus1),
+        store(StoreKind::Set, K1, b"c", 4, 0, CasArg::Current),
         append(K1, b"x", CasArg::Zero),
         prepend(K2, b"y", CasArg::Zero),
         incr(K2, 1, 5, 0, CasArg::Zero),
@@ -109,9 +111,9 @@ fn c01(tier: Tier) -> Vec<SeqCfg> {
         tick(2),
     ];
     let mut cfgs = vec![];
-    let d = if tier == Tier::Quick { 4 } else { 6 };
+    let d = if tier == Tier::Quick { 5 } else { 7 };
     cfgs.push(base("C01/none", "C01", a.clone(), d, tier));
-    let mut r = base("C01/random-unreached", "C01", a.clone(), if tier == Tier::Quick { 3 } else { 5 }, tier);
+    let mut r = base("C01/random-unreached", "C01", a.clone(), if tier == Tier::Quick { 5 } else { 6 }, tier);
     r.sut.policy = Policy::Random(1 << 40);
     cfgs.push(r);
     if tier == Tier::Thorough {
@@ -224,6 +226,11 @@ fn c06(tier: Tier) -> Vec<SeqCfg> {
         add(K1, &[0u8, 0xff], 2, 0),
         replace(K1, b"R", 3, 0),
         replace(K1, &[0u8, 0xff], 0xdeadbeef, 0),
+        // same bytes as a value another command stores, different flags / ttl
+        replace(K1, b"base", 7, 0),
+        replace(K1, b"", 9, 2),
+        add(K1, b"base", 8, 0),
+        set(K1, b"R", 0xdeadbeef, 0),
         append(K1, b"", Zero),
         append(K1, &[0u8, 0xff], Zero),
         append(K1, b"tail", Zero),
